@@ -5,7 +5,7 @@ ROOT=$(dirname "$(realpath "$0")")
 cd "$ROOT/mc" || exit 1
 mkdir -p "$ROOT/.bin" "$ROOT/evidence" "$ROOT/replays"
 rc=0
-for d in checks/*/; do
+for d in checks/c[0-9][0-9]/; do   # helper binaries (c10helper, c11real, c12race, c13faults) are built by their check's build.sh
   c=$(basename "$d")
   if [ -x "$d/build.sh" ]; then "$d/build.sh" || rc=1
   else go build -o "$ROOT/.bin/$c" "./$d" || rc=1; fi
